@@ -378,6 +378,8 @@ fn expo() -> BoxedStrategy<i32> {
         2 => prop::sample::select(vec![-128i32, -127, -65, -64, -63, -62, -1, 1, 62, 63, 64, 65, 127, 128]),
         2 => -70i32..=70,
         1 => -1000i32..=1000,
+        // the edges of the f64 range (for 64-bit and for short mantissas)
+        1 => prop::sample::select(vec![955i32, 957, 958, 959, 960, 961, 1019, 1020, 1021, 1022, 1023, -960, -1020]),
     ]
     .boxed()
 }
@@ -496,14 +498,39 @@ fn check_complex_value(s: &Scalar4, obs: &mut Obs) -> Result<(), String> {
     }
     let top = nz.iter().map(|b| b.top()).max().unwrap();
     let low = nz.iter().map(|b| b.top()).min().unwrap();
-    if top > 900 || low < -900 {
+    // The conversion is asserted wherever every quantity of the defining formula
+    // re = c0 + (c1-c3)/sqrt2, im = c2 + (c1+c3)/sqrt2 is a representable f64 (<= f64::MAX) and no
+    // coefficient is so small that it is subnormal relative to nothing else (tops >= -900).
+    let f64max = BD::new(BigInt::from((1u64 << 53) - 1), 971);
+    let d13 = bds[1].sub(&bds[3]);
+    let s13 = bds[1].add(&bds[3]);
+    if [&bds[0], &bds[2], &d13, &s13]
+        .iter()
+        .any(|p| p.abs().cmp(&f64max) == Ordering::Greater)
+        || low < -900
+    {
         obs.skip("exponent-outside-f64-range");
         return Ok(());
     }
-    let c = guarded("complex_value", || s.complex_value())?;
     let f: Vec<f64> = bds.iter().map(|b| b.to_f64_scaled(top)).collect();
     let r = std::f64::consts::FRAC_1_SQRT_2;
     let want = Complex64::new(f[0] + (f[1] - f[3]) * r, f[2] + (f[1] + f[3]) * r);
+    // the result itself must be representable, with a margin against the last binade's edge
+    if top >= 1000 {
+        let room = libm_ldexp(0.999, (1024 - top) as i32);
+        if want.re.abs() >= room || want.im.abs() >= room {
+            obs.skip("result-exceeds-f64-range");
+            return Ok(());
+        }
+        obs.class("top-of-f64-range");
+    }
+    let c = guarded("complex_value", || s.complex_value())?;
+    if !c.re.is_finite() || !c.im.is_finite() {
+        return Err(format!(
+            "complex_value() = {c} is not finite although the scalar ({} * 2^{top}) is representable; coefficients {cs:?}",
+            want
+        ));
+    }
     let got = Complex64::new(libm_ldexp(c.re, -top as i32), libm_ldexp(c.im, -top as i32));
     let maxc = f.iter().fold(0.0f64, |a, &x| a.max(x.abs()));
     let err = (got - want).norm();
@@ -687,7 +714,9 @@ fn check_dyadic(c: &DCase, obs: &mut Obs) -> Result<(), String> {
             obs.class("rounded(approx-flag-set)");
         }
         // f64 conversion of the stored value
-        if !v.is_zero() && v.top() < 900 && v.top() > -900 {
+        let f64max = BD::new(BigInt::from((1u64 << 53) - 1), 971);
+        if !v.is_zero() && v.abs().cmp(&f64max) != Ordering::Greater && v.top() > -900 {
+            obs.class_if(v.top() >= 1000, "top-of-f64-range");
             let got = guarded("f64::try_from", || f64::try_from(*q))?;
             match got {
                 Err(_) => {
